@@ -708,7 +708,22 @@ class _Walker:
         if isinstance(st, (ast.For, ast.AsyncFor)):
             it = load(self.ev(st.iter, env))
             env = dict(env)
-            self.bind_target(st.target, it, env)
+            zipped = st.iter
+            if isinstance(zipped, ast.Call) and norm(zipped.func) == "enumerate" and zipped.args \
+                    and isinstance(st.target, (ast.Tuple, ast.List)) and len(st.target.elts) == 2:
+                self.bind_target(st.target.elts[0], FRESH, env)
+                inner_t, zipped = st.target.elts[1], zipped.args[0]
+            else:
+                inner_t = st.target
+            if isinstance(zipped, ast.Call) and norm(zipped.func) == "zip" and isinstance(inner_t, (ast.Tuple, ast.List)) \
+                    and len(inner_t.elts) == len(zipped.args) and not any(isinstance(a, ast.Starred) for a in zipped.args):
+                # for a, b in zip(xs, ys): a is an element of xs, b an element of ys (position-wise, not the union)
+                for el, a in zip(inner_t.elts, zipped.args):
+                    self.bind_target(el, load(self.ev(a, env)), env)
+            elif inner_t is st.target:
+                self.bind_target(st.target, it, env)
+            else:
+                self.bind_target(inner_t, load(self.ev(zipped, env)), env)
             once = self.block(st.body, dict(env))
             env = self.join(env, once)
             twice = self.block(st.body, dict(env))
